@@ -267,6 +267,163 @@ def clone_receiver(c):
     return d
 
 
+
+# ---------------------------------------------------------------------- read modes
+@implementer(interfaces.IConsumer)
+class RecConsumer:
+    def __init__(self, log):
+        self.log = log
+        self.producer = None
+
+    def registerProducer(self, p, streaming):
+        self.producer = p
+
+    def unregisterProducer(self):
+        self.producer = None
+
+    def write(self, data):
+        self.log.append(("c", data))
+
+
+class ReadModes(Job):
+    """honest records delivered while the application switches between receive_record() and consumer mode: a solver-chosen schedule of k operations
+    (feed one frame / feed the rest / read / attach a consumer with a symbolic `expected` byte count or none / detach), then everything outstanding is
+    fed and read.  Every record reaches exactly one sink, and the sequence of deliveries over time is exactly the sequence sent."""
+    functions = ["transit.Connection.recordReceived/receive_record/_deliverRecords", "Connection.connectConsumer/_writeToConsumer/disconnectConsumer",
+                 "Connection.dataReceived/dataReceivedRECORDS/_decrypt_record/send_record"]
+    shadows = ["transit.SecretBox (ideal AEAD, concrete ciphertexts)", "transit.log"]
+    OPS = ("feed", "feedall", "read", "attach", "attach-none", "detach")
+
+    def __init__(self, lens, k, direction, first):
+        self.lens, self.k, self.direction, self.first = lens, k, direction, first
+        self.name = "read_modes_%s_%s_k%d_%s" % (direction, "-".join(map(str, lens)), k, first)
+        self.bounds = dict(record_lengths=lens, schedule_ops=k, first_op=first, ops=list(self.OPS), expected="symbolic integer 0..total+1 per attach", direction=direction)
+        self.must_reach = ("nt:all-delivered",)
+
+    def run(self, script):
+        symbolic = script is None
+        world = BoxWorld(concrete=True)
+        with loader.shadow((T, "SecretBox", make_box_class(world)), (T, "log", LogRec()), (T, "isinstance", V.sym_isinstance)):
+            cs, cr = build_pair()
+            snd, rcv = (cs, cr) if self.direction == "s2r" else (cr, cs)
+            pts, frames = [], []
+            for i, n in enumerate(self.lens):
+                p = payload(i, n)
+                pts.append(p)
+                snd.send_record(p)
+                w = snd.transport.take()
+                frames.append(b"".join(bytes(x) for x in w))
+            total = sum(self.lens)
+            log = []          # deliveries in time order: ("c", record) consumer write / ("r", read index, record)
+            nreads = [0]
+            trace = []
+            kicks = [0]
+
+            def read():
+                i = nreads[0]
+                nreads[0] += 1
+                rcv.receive_record().addCallbacks(lambda r, i=i: log.append(("r", i, r)), lambda f: None)
+
+            def enabled():
+                ops = []
+                if frames:
+                    ops += ["feed", "feedall"]
+                ops.append("read")
+                if rcv._consumer is None:
+                    ops += ["attach", "attach-none"]
+                elif rcv._consumer_bytes_expected is None:
+                    ops.append("detach")
+                return ops
+
+            def do(op, j):
+                if op == "feed":
+                    rcv.dataReceived(frames.pop(0))
+                elif op == "feedall":
+                    data = b"".join(frames)
+                    del frames[:]
+                    rcv.dataReceived(data)
+                elif op == "read":
+                    read()
+                elif op == "attach":
+                    if symbolic:
+                        E = fresh_int("expected%d" % j, 0, total + 2)
+                        eng().inputs["expected%d" % j] = E
+                    else:
+                        E = script["expected%d" % j]
+                    zero = bool(E == 0)
+                    before = len(log)
+                    rcv.connectConsumer(RecConsumer(log), expected=E)
+                    if zero:
+                        # documented kick: an empty write to let a zero-byte consumer finish
+                        if len(log) > before and log[before] == ("c", b""):
+                            del log[before]
+                            kicks[0] += 1
+                elif op == "attach-none":
+                    rcv.connectConsumer(RecConsumer(log), expected=None)
+                elif op == "detach":
+                    rcv.disconnectConsumer()
+
+            def problems():
+                recs = [e[-1] for e in log]
+                if recs != pts[:len(recs)]:
+                    return "deliveries over time %r are not a prefix of the records sent %r" % (recs, pts)
+                ridx = [e[1] for e in log if e[0] == "r"]
+                if ridx != sorted(ridx) or len(set(ridx)) != len(ridx):
+                    return "receive_record() results fired out of call order: %r" % (ridx,)
+                return None
+
+            for j in range(self.k):
+                ops = enabled()
+                if j == 0:
+                    if self.first not in ops:
+                        if symbolic:
+                            raise core._Abort()
+                        return None
+                    op = self.first
+                elif symbolic:
+                    op = ops[eng().choose(len(ops), "op%d" % j)]
+                else:
+                    op = script["ops"][j] if j < len(script["ops"]) else None
+                    if op not in ops:
+                        return None
+                trace.append(op)
+                if symbolic:
+                    eng().inputs["ops"] = list(trace)
+                do(op, j)
+                p = problems()
+                if p:
+                    return p
+            # completion: feed the rest, detach an open-ended consumer, read until every record has been seen
+            if frames:
+                do("feedall", -1)
+            if rcv._consumer is not None and rcv._consumer_bytes_expected is None:
+                do("detach", -1)
+            for _ in range(len(pts)):
+                read()
+            p = problems()
+            if p:
+                return p
+            recs = [e[-1] for e in log]
+            if rcv._consumer is None and recs != pts:
+                return "not every record was delivered: %r of %r (state %s)" % (recs, pts, rcv.state)
+            if rcv._consumer is not None and len(recs) + len(rcv._inbound_records) != len(pts):
+                return "records lost while a consumer is attached"
+            if rcv.state != "records" or rcv.transport.lost:
+                return "honest stream dropped the connection"
+            return None
+
+    def scenario(self):
+        p = self.run(None)
+        check(p is None, p or "")
+        eng().note("nt:all-delivered")
+
+    def key(self, inp, label):
+        return label.split(":")[0].split(" [")[0][:60]
+
+    def replay(self, inp, label):
+        return self.run(dict(inp))
+
+
 # ---------------------------------------------------------------------- manipulation
 KINDS = ["flip", "delete", "duplicate", "swap", "replay_earlier", "truncate", "inject", "reflect", "extend"]
 
@@ -616,6 +773,11 @@ def jobs(tier):
                     if not thorough and mode == "consumer" and direction == "r2s":
                         continue
                     J.append(Tamper(kind, lens, direction, mode))
+    for direction in (("s2r", "r2s") if thorough else ("s2r",)):
+        for first in ReadModes.OPS:
+            if first == "detach":
+                continue
+            J.append(ReadModes([2, 1, 0, 3, 1] if thorough else [2, 1, 0, 3], 6 if thorough else 5, direction, first))
     return J
 
 
